@@ -102,6 +102,61 @@ fn near(x: i128) -> String {
     }
 }
 
+/// Every comparison operator of the pair `(l, r)` against the same operator on the underlying integers `(wl, wr)`:
+/// the name of the first one that disagrees.
+fn cmp_ops<L: PartialOrd<R> + PartialEq<R>, R, W: Ord>(l: &L, r: &R, wl: W, wr: W) -> Option<&'static str> {
+    if l.partial_cmp(r) != Some(wl.cmp(&wr)) {
+        return Some("partial_cmp");
+    }
+    if (l == r) != (wl == wr) {
+        return Some("==");
+    }
+    if (l != r) != (wl != wr) {
+        return Some("!=");
+    }
+    if (l < r) != (wl < wr) {
+        return Some("<");
+    }
+    if (l <= r) != (wl <= wr) {
+        return Some("<=");
+    }
+    if (l > r) != (wl > wr) {
+        return Some(">");
+    }
+    if (l >= r) != (wl >= wr) {
+        return Some(">=");
+    }
+    None
+}
+
+/// Same-type pairs additionally have the total order's methods and a hash that respects equality.
+fn ord_ops<T: Ord + Copy + std::hash::Hash, W: Ord + Copy>(l: T, r: T, wl: W, wr: W, back: impl Fn(T) -> W) -> Option<&'static str> {
+    use std::hash::{Hash, Hasher};
+    if let Some(op) = cmp_ops(&l, &r, wl, wr) {
+        return Some(op);
+    }
+    if l.cmp(&r) != wl.cmp(&wr) {
+        return Some("cmp");
+    }
+    if back(l.max(r)) != wl.max(wr) {
+        return Some("max");
+    }
+    if back(l.min(r)) != wl.min(wr) {
+        return Some("min");
+    }
+    if wl == wr {
+        let h = |t: T| {
+            let mut s = std::collections::hash_map::DefaultHasher::new();
+            t.hash(&mut s);
+            s.finish()
+        };
+        if h(l) != h(r) {
+            return Some("hash-of-equal-values");
+        }
+    }
+    None
+}
+
 #[derive(Default)]
 struct Acc {
     vios: VioSet,
@@ -137,8 +192,8 @@ fn check_u64(x: u64, do_json: bool, acc: &mut Acc) {
         let v = U53::try_from(a).expect("anchor in range");
         acc.ops += 1;
         let want = a.cmp(&x);
-        if v.partial_cmp(&x) != Some(want) || (v == x) != (a == x) || (v < x) != (a < x) || (v > x) != (a > x) || (v >= x) != (a >= x) {
-            bad(acc, "U53", "compare_with_u64", x as i128, format!("anchor {} {:?} operand", near(a as i128), want), format!("{:?}", v.partial_cmp(&x)));
+        if let Some(op) = cmp_ops(&v, &x, a, x) {
+            bad(acc, "U53", "compare_with_u64", x as i128, format!("anchor {} {:?} operand", near(a as i128), want), format!("operator {op} disagrees; partial_cmp = {:?}", v.partial_cmp(&x)));
         }
     }
     acc.values += 1;
@@ -161,10 +216,28 @@ fn check_u64(x: u64, do_json: bool, acc: &mut Acc) {
         if !(v == x) || v.partial_cmp(&x) != Some(std::cmp::Ordering::Equal) {
             bad(acc, "U53", "eq_u64", x as i128, "equal".into(), "not equal".into());
         }
+        if let Some(op) = cmp_ops(&v, &x, x, x) {
+            bad(acc, "U53", "compare_with_own_value_as_u64", x as i128, "every operator as on u64".into(), format!("operator {op} disagrees"));
+        }
+        // same-type comparisons: with a second construction of the same value, and with every anchor on either side
+        let twin = U53::try_from(x).expect("accepted once");
+        acc.ops += 2 + 2 * U53_ANCHORS.len() as u64;
+        if let Some(op) = ord_ops(v, twin, x, x, u64::from) {
+            bad(acc, "U53", "same_type_comparison_of_equal_values", x as i128, "every operator as on u64".into(), format!("operator {op} disagrees"));
+        }
+        for a in U53_ANCHORS {
+            let av = U53::try_from(a).expect("anchor in range");
+            if let Some(op) = ord_ops(v, av, x, a, u64::from).or_else(|| ord_ops(av, v, a, x, u64::from)) {
+                bad(acc, "U53", "same_type_comparison", x as i128, format!("as on u64 against anchor {}", near(a as i128)), format!("operator {op} disagrees"));
+            }
+        }
         if x > 0 {
             if let Ok(p) = U53::try_from(x - 1) {
                 if !(p < v) || p == v || !(p < x) || !(v > x - 1) {
                     bad(acc, "U53", "ordering", x as i128, "pred < value".into(), "ordering disagrees".into());
+                }
+                if let Some(op) = ord_ops(p, v, x - 1, x, u64::from).or_else(|| ord_ops(v, p, x, x - 1, u64::from)) {
+                    bad(acc, "U53", "same_type_comparison_with_predecessor", x as i128, "as on u64".into(), format!("operator {op} disagrees"));
                 }
             }
         }
@@ -236,8 +309,8 @@ fn check_i64(x: i64, do_json: bool, acc: &mut Acc) {
         let v = I54::try_from(a).expect("anchor in range");
         acc.ops += 1;
         let want = a.cmp(&x);
-        if v.partial_cmp(&x) != Some(want) || (v == x) != (a == x) || (v < x) != (a < x) || (v > x) != (a > x) || (v <= x) != (a <= x) {
-            bad(acc, "I54", "compare_with_i64", x as i128, format!("anchor {} {:?} operand", near(a as i128), want), format!("{:?}", v.partial_cmp(&x)));
+        if let Some(op) = cmp_ops(&v, &x, a, x) {
+            bad(acc, "I54", "compare_with_i64", x as i128, format!("anchor {} {:?} operand", near(a as i128), want), format!("operator {op} disagrees; partial_cmp = {:?}", v.partial_cmp(&x)));
         }
     }
     acc.values += 1;
@@ -260,10 +333,27 @@ fn check_i64(x: i64, do_json: bool, acc: &mut Acc) {
         if !(v == x) || v.partial_cmp(&x) != Some(std::cmp::Ordering::Equal) {
             bad(acc, "I54", "eq_i64", x as i128, "equal".into(), "not equal".into());
         }
+        if let Some(op) = cmp_ops(&v, &x, x, x) {
+            bad(acc, "I54", "compare_with_own_value_as_i64", x as i128, "every operator as on i64".into(), format!("operator {op} disagrees"));
+        }
+        let twin = I54::try_from(x).expect("accepted once");
+        acc.ops += 2 + 2 * I54_ANCHORS.len() as u64;
+        if let Some(op) = ord_ops(v, twin, x, x, i64::from) {
+            bad(acc, "I54", "same_type_comparison_of_equal_values", x as i128, "every operator as on i64".into(), format!("operator {op} disagrees"));
+        }
+        for a in I54_ANCHORS {
+            let av = I54::try_from(a).expect("anchor in range");
+            if let Some(op) = ord_ops(v, av, x, a, i64::from).or_else(|| ord_ops(av, v, a, x, i64::from)) {
+                bad(acc, "I54", "same_type_comparison", x as i128, format!("as on i64 against anchor {}", near(a as i128)), format!("operator {op} disagrees"));
+            }
+        }
         if let Some(px) = x.checked_sub(1) {
             if let Ok(p) = I54::try_from(px) {
                 if !(p < v) || p == v || !(p < x) || !(v > px) {
                     bad(acc, "I54", "ordering", x as i128, "pred < value".into(), "ordering disagrees".into());
+                }
+                if let Some(op) = ord_ops(p, v, px, x, i64::from).or_else(|| ord_ops(v, p, x, px, i64::from)) {
+                    bad(acc, "I54", "same_type_comparison_with_predecessor", x as i128, "as on i64".into(), format!("operator {op} disagrees"));
                 }
             }
         }
@@ -526,7 +616,7 @@ pub fn run(args: &[String]) -> i32 {
     rep.cov("exhaustive", json!(true));
     rep.cov(
         "rule",
-        json!("every integer within the window radius of 0, of ±2^k (k=0..63), of ±(2^53-1), ±2^53 and of every MIN/MAX of the 8..64-bit types, clipped to the source type; every operation of the public API on each; non-trivial = value within the radius of one of the three accept/reject boundaries (U53_MAX, I54_MIN, I54_MAX), where the verdict flips"),
+        json!("every integer within the window radius of 0, of ±2^k (k=0..63), of ±(2^53-1), ±2^53 and of every MIN/MAX of the 8..64-bit types, clipped to the source type; every operation of the public API on each; non-trivial = value within the radius of one of the three accept/reject boundaries (U53_MAX, I54_MIN, I54_MAX), where the verdict flips. Ordering and equality: every operator (partial_cmp, ==, !=, <, <=, >, >=; for same-type pairs also cmp, max, min and equal hashes of equal values) on (value, its own wide integer), (value, a second construction of it), (value, predecessor), (value, each anchor) and (anchor, each wide integer), both operand orders, against the same operator on the underlying integers"),
     );
     rep.sample(json!({"value": "9007199254740991", "U53::try_from": format!("{:?}", U53::try_from(U53_HI).is_ok()), "json": serde_json::to_string(&U53::try_from(U53_HI).unwrap()).unwrap()}));
     rep.sample(json!({"value": "9007199254740992", "U53::try_from": format!("{:?}", U53::try_from(U53_HI + 1).is_ok()), "from_json": format!("{:?}", serde_json::from_str::<U53>("9007199254740992").is_ok())}));
